@@ -275,7 +275,8 @@ Theorem ccsei_spec self other pos m v w r w' :
     exists w3 w4 path,
       register_subtree T (fuel_of w3) m path c w3 = Val (OK tt, w4) /\
       w_models w' = w_models w4 /\
-      (forall i, i <> self -> w_nodes w' i = w_nodes w3 i) /\ w_nodes w3 self = Some ns
+      (forall i, i <> self -> w_nodes w' i = w_nodes w3 i) /\ w_nodes w3 self = Some ns /\
+      path_unchecked T ns w1 = Val (OK path, w1)
   end.
 Proof.
   intros Cw H. unfold create_copied_sub_element_inner in H.
@@ -320,7 +321,7 @@ Proof.
   apply wbind_inv in H as [(path & w2 & E2 & H) | (e & E2 & ->)].
   2: { assert (w' = w1) by (eapply ro_path_unchecked; eauto). subst w'.
        split; auto. split; [apply CopyFrame_of_Ext; repeat split; auto|]. exists ns. auto. }
-  assert (w2 = w1) by (eapply ro_path_unchecked; eauto). subst w2. clear E2.
+  assert (w2 = w1) by (eapply ro_path_unchecked; eauto). subst w2. rename E2 into Epath.
   (* set_parent *)
   apply wbind_inv in H as [(u & w2 & E2 & H) | (e & E2 & _)].
   2: { apply modify_node_inv in E2 as (? & _ & [=] & _). }
@@ -420,7 +421,7 @@ Proof.
   exists ns. split; auto. split. { cbn. apply upd_eq. }
   exists w1. split; auto.
   split.
-  2: { exists w3, w4, path. split; [exact E4|]. split; [reflexivity|]. split; auto.
+  2: { exists w3, w4, path. split; [exact E4|]. split; [reflexivity|]. split; [|split; [exact Hself3 | exact Epath]].
        intros i Hi. cbn. rewrite upd_neq by auto. rewrite Hnodes4. reflexivity. }
   exists nc1. split; auto. split. { cbn. rewrite upd_neq by auto. rewrite Hnodes4. exact Hc3. }
   destruct Hrest as [Hrest | (s & rest & sn & name & orig & Hcont & Hsn & Hcs & Hs3 & HNk & Hin & Hrest)].
